@@ -511,6 +511,7 @@ def c18(ctx, e):
         if alive:
             ctx.violation("checkpoint-thread-leaked", f"threads {alive} still alive when the wrapper returned", scen_of(e))
             return
+    response_over_limit(ctx, e)      # a response Lambda cannot deliver is not a well-formed outcome
 
 
 # ---- C06 ---------------------------------------------------------------------------------------------------
@@ -621,6 +622,28 @@ def c17(ctx, e):
                 return
 
 
+def response_over_limit(ctx, e):
+    """no invocation may report a response above the limit the SDK itself defines for Lambda responses.  The size is that of the
+    smallest faithful JSON encoding of the returned dict (UTF-8, nothing escaped that need not be): an SDK that counts characters
+    where bytes are meant, or escapes less than it measured, is caught; one that is merely conservative is not."""
+    import json as _json
+    try:
+        from aws_durable_execution_sdk_python.execution import LAMBDA_RESPONSE_SIZE_LIMIT as _LIMIT
+    except Exception:  # noqa: BLE001
+        _LIMIT = 6 * 1024 * 1024 - 50
+    for r in e.invocations:
+        if isinstance(r.result, dict):
+            try:
+                n = len(_json.dumps(r.result, ensure_ascii=False).encode("utf-8", "surrogatepass"))
+            except (TypeError, ValueError):
+                continue        # not encodable at all: C18's malformed-output
+            if n > _LIMIT:
+                ctx.violation("response-over-limit", f"invocation {r.inv} reported a {n} byte response ({r.outcome}); the limit is {_LIMIT}",
+                              scen_of(e))
+                return True
+    return False
+
+
 # ---- C16 ---------------------------------------------------------------------------------------------------
 LIMIT = 256 * 1024
 
@@ -666,18 +689,8 @@ def c16(ctx, e):
                     ctx.violation("new-record-on-replay", f"{path}: update {u['action']} for {u['name']} recorded after the summary", scen_of(e))
                     return
     # whatever the program: no invocation may report a response above the limit the SDK itself defines for Lambda responses
-    import json as _json
-    try:
-        from aws_durable_execution_sdk_python.execution import LAMBDA_RESPONSE_SIZE_LIMIT as _LIMIT
-    except Exception:  # noqa: BLE001
-        _LIMIT = 6 * 1024 * 1024 - 50
-    for r in e.invocations:
-        if isinstance(r.result, dict):
-            n = len(_json.dumps(r.result))
-            if n > _LIMIT:
-                ctx.violation("response-over-limit", f"invocation {r.inv} reported a {n} byte response ({r.outcome}); the limit is {_LIMIT}",
-                              scen_of(e))
-                return
+    if response_over_limit(ctx, e):
+        return
     for r in e.invocations:
         if r.outcome in ("SUCCEEDED", "FAILED") and isinstance(r.result, dict):
             big = e.prog.get("final_large") or e.prog.get("final_raise_large")
